@@ -130,6 +130,9 @@ Definition dispositions : list (site * disp) := [
   (("TotalThroughputSampler.GetSampleRate", "intn", "rand.Intn(int(rate))"), DFixed "sampler_draw_gen_safe");
   (("WindowedThroughputSampler.GetSampleRate", "intn", "rand.Intn(int(rate))"), DFixed "sampler_draw_gen_safe");
   (("RulesBasedSampler.GetSampleRate", "intn", "rand.Intn(rule.SampleRate)"), DProved "rules_draw_gen_safe (guard `rule.SampleRate > 0` extracted as rules_draw_guarded)");
+  (("extractValueFromSpan", "rootspan", "span = trace.RootSpan | if trace.RootSpan != nil"), DProved "extract_value_gen_safe (assignment only under the nil test; else-branch `continue` extracted as root_field_skipped_without_root)");
+  (("traceKey.build", "rootspan", "trace.RootSpan.Data | if trace.RootSpan != nil"), DCallerGuard "inside `if trace.RootSpan != nil`");
+  (("traceKey.build", "rootspan", "trace.RootSpan.Data | if trace.RootSpan.Data.Exists(field)"), DCallerGuard "nested inside `if trace.RootSpan != nil`");
   (("SamplerFactory.GetDownstreamSampler", "exit", "os.Exit"), DStartup "unknown sampler type: the Go type switch over the config structs is exhaustive for parsed rules");
   (("SamplerFactory.createSamplerIn", "exit", "os.Exit"), DStartup "unknown sampler type: the Go type switch over the config structs is exhaustive for parsed rules");
   (("SamplerFactory.updatePeerCounts", "div", "cfg / s.peerCount"), DCallerGuard "peerCount starts at 1 and is only overwritten by len(peers) > 0");
@@ -192,7 +195,7 @@ Proof. vm_compute. reflexivity. Qed.
 (* the two sites that were reachable from accepted configurations are guarded in the source now *)
 Lemma fixes_present : key_fields_skips_empty && det_start_guards_rate && det_rate_le_1_keeps && http_has_panic_catcher &&
   validation_rejects_negative_durations && rates_clamped && batch_ticker_clamped && (ema_throughput_interval_bounded && duration_bounds_keep_fraction) && rules_draw_guarded &&
-  queue_sizes_validated_nonnegative = true.
+  queue_sizes_validated_nonnegative && root_field_skipped_without_root = true.
 Proof. reflexivity. Qed.
 
 Local Close Scope string_scope.
@@ -274,3 +277,25 @@ Lemma worker_queue_gen_safe size workers :
 Proof. apply worker_queue_safe. Qed.
 Lemma worker_queue_refuted_before_fix : queue_size_accepted false (-1) = true /\ worker_queue (-1) 1 = None.
 Proof. split; reflexivity. Qed.
+
+(* ---------- extractValueFromSpan: the span variable is never nil ---------- *)
+Lemma xv_loop_not_nil has_root : forall fields cur, cur <> SNil -> fst (xv_loop true has_root fields cur) <> SNil.
+Proof.
+  induction fields as [|[rp present] r IH]; intros cur Hc; cbn [xv_loop]; [exact Hc|].
+  destruct rp.
+  - destruct has_root.
+    + destruct present; [cbn; discriminate|apply IH; discriminate].
+    + apply IH. discriminate.
+  - destruct present; [cbn; discriminate|apply IH; discriminate].
+Qed.
+Lemma extract_value_safe has_root nested fields : extract_value true has_root nested fields <> None.
+Proof.
+  unfold extract_value. pose proof (xv_loop_not_nil has_root fields SOrig) as H.
+  destruct (xv_loop true has_root fields SOrig) as [cur found]. cbn [fst] in H.
+  destruct found; [discriminate|]. destruct nested; [|discriminate].
+  destruct cur; try discriminate. exfalso. apply H; [discriminate|reflexivity].
+Qed.
+Lemma extract_value_gen_safe has_root nested fields : extract_value root_field_skipped_without_root has_root nested fields <> None.
+Proof. apply extract_value_safe. Qed.
+Lemma extract_value_flattened_refuted : extract_value false false true [(true, false)] = None.
+Proof. reflexivity. Qed.
